@@ -78,8 +78,9 @@ type input struct {
 	PathType  string            `json:"path_type,omitempty"`
 	Services  []string          `json:"services,omitempty"`
 	Ingresses []ingIn           `json:"ingresses,omitempty"`
-	UBackends []ubackend        `json:"backends,omitempty"` // updater kind, see updater.go
-	Calls     []call            `json:"calls,omitempty"`    // updater kind
+	UBackends []ubackend        `json:"backends,omitempty"`          // updater kind, see updater.go
+	Calls     []call            `json:"calls,omitempty"`             // updater kind
+	PassHosts []string          `json:"passthrough_hosts,omitempty"` // updater kind: ssl-passthrough hosts
 }
 
 const (
@@ -814,14 +815,14 @@ func oraclePipeline(in input, obs *pipeObs) []fail {
 			continue
 		}
 		beRules := c1819.ParseAuthRules(be.Lines)
+		// the rules of the backend are scoped by path ids
 		needID := false
-		for _, l := range be.Lines {
-			if strings.Contains(l, "set-var(txn.pathID)") {
-				needID = true
+		for _, r := range beRules {
+			for _, c := range r.Conds {
+				if c.Kind == "pathid" {
+					needID = true
+				}
 			}
-		}
-		if needID && !idpathHas(obs.pipe.Dir, po) {
-			fs = append(fs, fail{"rendered-pathid-map", id + ": the idpath maps of the backend do not map the path to " + po.PathID})
 		}
 		for _, fe := range []string{"frontend _front_http", "frontend _front_https"} {
 			fsec := secs[fe]
@@ -936,24 +937,6 @@ func serviceOf(g ingIn, po pathObs) string {
 		}
 	}
 	return ""
-}
-
-func idpathHas(dir string, po pathObs) bool {
-	files, _ := filepath.Glob(filepath.Join(dir, "etc", "haproxy", "maps", "_back_"+po.Backend+"_idpath__*.map"))
-	for _, f := range files {
-		b, err := os.ReadFile(f)
-		if err != nil {
-			continue
-		}
-		for _, ln := range strings.Split(string(b), "\n") {
-			fld := strings.Fields(ln)
-			if len(fld) == 2 && fld[1] == po.PathID && strings.HasPrefix(strings.ToLower(fld[0]), strings.ToLower(po.Host)) &&
-				strings.Contains(strings.ToLower(fld[0]), strings.ToLower(po.Path)) {
-				return true
-			}
-		}
-	}
-	return false
 }
 
 // ---------------------------------------------------------------- main
